@@ -33,6 +33,7 @@ var _ = Service("svc", func() {
 			Attribute("e", String, func() { Enum("a", "bc") })
 			Attribute("pat", String, func() { Pattern("^[a-z]+$") })
 			Attribute("ip", String, func() { Format(FormatIPv4) })
+			Attribute("ipa", String, func() { Format(FormatIP) })
 			Attribute("ipp", String, func() {
 				Format(FormatIPv4)
 				Pattern("^1")
